@@ -239,6 +239,10 @@ pub struct HState {
     pub deferred_pending: bool,
     /// snapshots of the versions of branch "b0" (None = branch does not exist)
     pub branch: Option<BTreeMap<u64, VersionSnap>>,
+    /// main version the branch was created from and the data files that version references
+    pub branch_src: Option<(u64, BTreeSet<String>)>,
+    /// branch versions already reported unreadable (reported once, at the step that breaks them)
+    pub branch_broken: BTreeSet<u64>,
     pub fp: u64,
 }
 
@@ -549,6 +553,8 @@ impl Hist {
             ledger: BTreeMap::new(),
             deferred_pending: false,
             branch: None,
+            branch_src: None,
+            branch_broken: BTreeSet::new(),
             fp: 0,
         };
         let mut table: Vec<MR> = vec![];
@@ -1063,6 +1069,30 @@ impl Hist {
             _ => {}
         }
 
+        // ---- branch bookkeeping: remember which main version (and which data files) the branch
+        // was created from
+        if let (Op::BranchCreate { v }, false) = (op, rejected) {
+            let files: BTreeSet<String> = match env.open_version(URI, *v).await {
+                Ok(d) => d
+                    .manifest()
+                    .fragments
+                    .iter()
+                    .flat_map(|fr| {
+                        // data files and the deletion file of every fragment of that version
+                        let mut v: Vec<String> = fr.files.iter().map(|df| format!("data/{}", df.path)).collect();
+                        if let Some(del) = &fr.deletion_file {
+                            let base = object_store::path::Path::from("");
+                            let p = lance_table::io::deletion::deletion_file_path(&base, fr.id, del);
+                            v.push(p.to_string());
+                        }
+                        v
+                    })
+                    .collect(),
+                Err(_) => BTreeSet::new(),
+            };
+            n.branch_src = Some((*v, files));
+            n.branch_broken.clear();
+        }
         // ---- branch bookkeeping: snapshot the branch version the op created
         match op {
             Op::BranchCreate { .. } | Op::BranchAppend { .. } if !rejected => {
@@ -1091,6 +1121,8 @@ impl Hist {
             }
             Op::BranchDelete if !rejected => {
                 n.branch = None;
+                n.branch_src = None;
+                n.branch_broken.clear();
             }
             _ => {}
         }
@@ -1284,7 +1316,7 @@ impl Hist {
         // ---- C06 O-snap: every version ever committed
         if self.oracles.snap {
             self.check_old_versions(&env, st, &n, op, &mut f).await;
-            self.check_branch_versions(&env, st, &n, op, &mut f).await;
+            self.check_branch_versions(&env, st, &mut n, op, &mut f).await;
         }
 
         // ---- C13: compaction preserves contents
@@ -1509,7 +1541,7 @@ impl Hist {
     }
 
     /// O-snap on the versions of branch b0 that existed before this step
-    async fn check_branch_versions(&self, env: &Env, st: &HState, n: &HState, op: &Op, f: &mut Vec<Finding>) {
+    async fn check_branch_versions(&self, env: &Env, st: &HState, n: &mut HState, op: &Op, f: &mut Vec<Finding>) {
         let kind = op.kind();
         let (Some(old), Some(_)) = (&st.branch, &n.branch) else { return };
         let main = match env.open(URI).await {
@@ -1517,22 +1549,47 @@ impl Hist {
             Err(_) => return,
         };
         for (v, want) in old.iter() {
+            if n.branch_broken.contains(v) {
+                // already reported at the step that broke it
+                self.count("snap.branch_versions_known_broken", 1);
+                continue;
+            }
             self.count("snap.branch_versions_compared", 1);
-            // what a main-table cleanup does to files a branch still references is C08's matter
-            let owner = if kind == "cleanup" { "C08" } else { "C06" };
-            match main.checkout_version((BRANCH, *v)).await {
-                Err(e) => note(f, owner, "snap-branch", format!("branch-version-lost/after-{kind}"),
-                    format!("version {v} of branch {BRANCH} cannot be checked out after {op:?}: {e}")),
+            let failure: Option<(&str, String)> = match main.checkout_version((BRANCH, *v)).await {
+                Err(e) => Some(("lost", e.to_string())),
                 Ok(d) => match snap(&d).await {
-                    Err(e) => note(f, owner, "snap-branch", format!("branch-version-unreadable/after-{kind}"),
-                        format!("version {v} of branch {BRANCH} cannot be read after {op:?}: {e}")),
+                    Err(e) => Some(("unreadable", e.to_string())),
                     Ok(s) => {
                         if let Some(d) = vds::snap_diff(want, &s) {
-                            note(f, owner, "snap-branch", format!("branch-version-changed/after-{kind}"),
+                            note(f, "C06", "snap-branch", format!("branch-version-changed/after-{kind}"),
                                 format!("version {v} of branch {BRANCH} changed after {op:?}: {d}"));
                         }
+                        None
                     }
                 },
+            };
+            let Some((how, msg)) = failure else { continue };
+            n.branch_broken.insert(*v);
+            // root cause: a cleanup on main (after the branch was created) selected the version the
+            // branch was cloned from and removed a data file of that version which the branch
+            // still references
+            let root_cause = match &n.branch_src {
+                Some((src, files)) => {
+                    let cleaned = n.vers.get(src).map(|r| !r.exists).unwrap_or(false);
+                    let missing_src_file = msg.contains("not found")
+                        && files.iter().any(|name| msg.contains(&format!("tbl/{name}")));
+                    cleaned && missing_src_file
+                }
+                None => false,
+            };
+            let short: String = msg.chars().take(400).collect();
+            if root_cause {
+                let src = n.branch_src.as_ref().map(|x| x.0).unwrap_or(0);
+                note(f, "C06", "snap-branch", "branch-version-unreadable/main-cleanup-removed-files-referenced-by-branch".into(),
+                    format!("version {v} of branch {BRANCH} (created from main version {src}) is {how} after {op:?}: a cleanup on main removed version {src} and a data / deletion file of it that the branch still references: {short}"));
+            } else {
+                note(f, "C06", "snap-branch", format!("branch-version-{how}/after-{kind}"),
+                    format!("version {v} of branch {BRANCH} is {how} after {op:?}: {short}"));
             }
         }
     }
